@@ -53,7 +53,13 @@ from django_components.dependencies import (
     set_component_attrs_for_js_and_css,
 )
 from django_components.node import BaseNode
-from django_components.perfutil.component import ComponentRenderer, component_context_cache, component_post_render
+from django_components.perfutil.component import (
+    ComponentRenderer,
+    child_component_attrs,
+    component_context_cache,
+    component_post_render,
+    component_renderer_cache,
+)
 from django_components.perfutil.provide import register_provide_reference, unregister_provide_reference
 from django_components.provide import get_injected_context_var
 from django_components.slots import (
@@ -614,8 +620,10 @@ class Component(
     @contextmanager
     def _with_metadata(self, item: MetadataItem) -> Generator[None, None, None]:
         self._metadata_stack.append(item)
-        yield
-        self._metadata_stack.pop()
+        try:
+            yield
+        finally:
+            self._metadata_stack.pop()
 
     @property
     def name(self) -> str:
@@ -969,15 +977,19 @@ class Component(
     ) -> str:
         # Modify the error to display full component path (incl. slots)
         with component_error_message([self.name]):
+            # Filled in by `_render_impl()` so that a failed render can be cleaned up
+            render_state: Dict[str, Any] = {}
             try:
                 return self._render_impl(
-                    context, args, kwargs, slots, escape_slots_content, type, render_dependencies, request
+                    render_state, context, args, kwargs, slots, escape_slots_content, type, render_dependencies, request
                 )
             except Exception as err:
+                _cleanup_failed_render(render_state)
                 raise err from None
 
     def _render_impl(
         self,
+        render_state: Dict[str, Any],
         context: Optional[Union[Dict[str, Any], Context]] = None,
         args: Optional[ArgsType] = None,
         kwargs: Optional[KwargsType] = None,
@@ -1007,6 +1019,7 @@ class Component(
         # Required for compatibility with Django's {% extends %} tag
         # See https://github.com/django-components/django-components/pull/859
         context.render_context.push({BLOCK_CONTEXT_KEY: context.render_context.get(BLOCK_CONTEXT_KEY, BlockContext())})
+        render_state["pushed_render_context"] = context.render_context
 
         # By adding the current input to the stack, we temporarily allow users
         # to access the provided context, slots, etc. Also required so users can
@@ -1041,6 +1054,10 @@ class Component(
             parent_id = None
             component_path = [self.name]
             post_render_callbacks = {}
+
+        render_state["render_id"] = render_id
+        render_state["parent_id"] = parent_id
+        render_state["post_render_callbacks"] = post_render_callbacks
 
         trace_component_msg(
             "COMP_PREP_START",
@@ -1129,6 +1146,7 @@ class Component(
 
         # Cleanup
         context.render_context.pop()
+        render_state["pushed_render_context"] = None
 
         # Instead of rendering component at the time we come across the `{% component %}` tag
         # in the template, we defer rendering in order to scalably handle deeply nested components.
@@ -1623,6 +1641,32 @@ class ComponentNode(BaseNode):
         )
 
         return output
+
+
+def _cleanup_failed_render(render_state: Dict[str, Any]) -> None:
+    """
+    Remove everything that a failed `Component._render_impl()` left in the render-time caches,
+    so that objects passed to the failed render can be garbage collected.
+    """
+    pushed_render_context = render_state.get("pushed_render_context")
+    if pushed_render_context is not None:
+        pushed_render_context.pop()
+
+    render_id = render_state.get("render_id")
+    if render_id is None:
+        return
+
+    render_ids = {render_id}
+    # The root component is responsible also for all the nested components that were
+    # prepared (and registered in the caches) but whose deferred render did not finish.
+    if render_state["parent_id"] is None:
+        render_ids.update(render_state["post_render_callbacks"].keys())
+
+    for curr_id in render_ids:
+        component_context_cache.pop(curr_id, None)
+        component_renderer_cache.pop(curr_id, None)
+        child_component_attrs.pop(curr_id, None)
+        unregister_provide_reference(curr_id)
 
 
 @contextmanager
